@@ -255,6 +255,9 @@ def save_faults(st, wd, sc, di, pairs):
         positions = [(k,) for k in range(1, total + 1)]
         for (k,) in positions:
             for kind in faults.KINDS:
+                if kind == "assert" and not plan0.log[k - 1].startswith(
+                        "write:"):
+                    continue
                 one_fault(st, wd, tool, argv, base, tname, original, stale,
                           k, kind, plan0.log[k - 1], sc)
     st.sample({"tool": tool, "argv": [a.replace(wd, "") for a in argv],
